@@ -98,7 +98,7 @@ def finding_matches(f, ob):
     return f.get('function') == ob.fn and (f.get('clause') in (None, ob.clause))
 
 
-def conclude(prop, tier, seed, mod, cresults, obligations, wall, extra_info=None, verbose=False):
+def conclude(prop, tier, seed, mod, cresults, obligations, wall, extra_info=None, verbose=False, only=None):
     covers = [o for o in obligations if o.kind == 'cover']
     obligations = [o for o in obligations if o.kind != 'cover']
     known = load_known()
@@ -165,6 +165,8 @@ def conclude(prop, tier, seed, mod, cresults, obligations, wall, extra_info=None
     if ledger is not None:
         present = set('%s|%s' % (o.fn, o.clause) for o in obligations)
         for ent in ledger.get('discharged', []):
+            if only and only not in ent.split('|')[0]:
+                continue  # --only TEXT: only the ledger clauses of the selected contracts are expected
             if ent not in present:
                 missing.append(ent)
 
